@@ -452,7 +452,7 @@ class LocalConcurrences:
             dtw_cc.wps_positivize(self._c_parts, self._wp,
                                   len(self.series1), len(self.series2),
                                   0, len(self.series1) + 1,
-                                  0, len(self.series2) + 1)
+                                  0, len(self.series2) + 1, False)
         else:
             wp = self._wp
             if self.window is None:
